@@ -147,7 +147,7 @@ def compare_scenario(ctx, pid, scn, sr, inputs_list, concs, report):
             if ok:
                 covering.append((j, p, pe))
         base_replay = {
-            "contracts": {hex(a): c.hex() for a, c in scn.contracts.items()}, "nargs": scn.nargs, "static": scn.static,
+            "contracts": {hex(a): c.hex() for a, c in scn.contracts.items()}, "nargs": scn.nargs, "immutables": {hex(a): v for a, v in scn.immutables.items()}, "static": scn.static,
             "selector": scn.selector.hex(),
             "inputs": {"args": [hex(v) for v in inp.args], "caller": hex(inp.caller), "origin": hex(inp.origin), "value": hex(inp.value),
                        "balances": {hex(a): hex(v) for a, v in inp.balances.items()}, "baldefault": hex(inp.baldefault),
@@ -178,6 +178,14 @@ def compare_scenario(ctx, pid, scn, sr, inputs_list, concs, report):
             if not halt_matches(p.kind, conc.halt):
                 report("C01", f"outcome:{p.kind}-vs-{conc.halt}",
                        f"path {j} reports {p.kind} but the EVM ends in {conc.halt} for an input satisfying the path", dict(base_replay, path=j))
+                # --- C02, second sentence ("a branch, jump target ... is discarded only when it is proved infeasible"): every
+                # path that admits this input ends at an invalid jump destination although the EVM jumps there and goes on,
+                # i.e. a valid jump target (and the behaviour behind it) was discarded
+                if (p.kind == "invalidJump" and conc.halt != "invalidJump" and all(q.kind == "invalidJump" for _, q, _ in covering)
+                        and rejected_dest_is_valid(p, scn, inp)):
+                    report("C02", f"dropped-jump-target:invalidJump-vs-{conc.halt}",
+                           f"every path admitting the input ends in invalidJump, the EVM takes the jump and ends in {conc.halt}: "
+                           f"a valid jump target was discarded", dict(base_replay, path=j))
                 continue
             if p.kind in ("success", "revert"):
                 try:
@@ -303,6 +311,31 @@ def choose_inputs(ctx, scn, sr, n_random, pool):
     return out
 
 
+def rejected_dest_is_valid(p, scn, inp):
+    """the destination the path's InvalidJumpDestError names is a JUMPDEST of the (hole-filled) code of the account under
+    test by the EVM's definition (0x5b at an instruction boundary: linear sweep skipping PUSH data)"""
+    arg = p.error.args[0] if getattr(p.error, "args", None) else None
+    try:
+        if isinstance(arg, str):
+            dest = int(arg.split("0x")[-1], 16)
+        elif hasattr(arg, "as_long"):
+            dest = arg.as_long()
+        elif hasattr(arg, "value") and isinstance(arg.value, int):
+            dest = arg.value
+        else:
+            dest = int(arg)
+    except Exception:  # noqa: BLE001  (symbolic destination: not decided here)
+        return False
+    code = scn.filled(inp.args)[D.MAIN]
+    pc, valid = 0, set()
+    while pc < len(code):
+        op = code[pc]
+        if op == 0x5B:
+            valid.add(pc)
+        pc += 1 + (op - 0x5F if 0x60 <= op <= 0x7F else 0)
+    return dest in valid
+
+
 def run(ctx, pid, features, n_scenarios, n_random_inputs, cfgs, malformed=0, pool=None, gen=None, corpus=True, corpus_as=None):
     """main loop; violations are reported under `pid` only for the kinds that belong to it (C01: soundness kinds,
     C02: uncovered inputs, C09: everything on call scenarios, C10: handled by its own module)."""
@@ -371,11 +404,11 @@ def run(ctx, pid, features, n_scenarios, n_random_inputs, cfgs, malformed=0, poo
                 if (corpus_as or pid) in dmeta[id(scn)][2]:
                     ctx.violation(f"corpus:{dmeta[id(scn)][0]}|C01|escaped:{sr.escaped.split(':')[0]}",
                                   f"[{dmeta[id(scn)][0]}] an internal exception escaped SEVM.run: {sr.escaped[:200]}",
-                                  {"contracts": {hex(a): c.hex() for a, c in scn.contracts.items()}, "nargs": scn.nargs, "config": cfg})
+                                  {"contracts": {hex(a): c.hex() for a, c in scn.contracts.items()}, "nargs": scn.nargs, "immutables": {hex(a): v for a, v in scn.immutables.items()}, "config": cfg})
             elif pid in ("C01", "C09"):
                 ctx.violation(f"C01|escaped:{sr.escaped.split(':')[0]}",
                               f"an internal exception escaped SEVM.run: {sr.escaped[:200]}",
-                              {"contracts": {hex(a): c.hex() for a, c in scn.contracts.items()}, "nargs": scn.nargs, "config": cfg})
+                              {"contracts": {hex(a): c.hex() for a, c in scn.contracts.items()}, "nargs": scn.nargs, "immutables": {hex(a): v for a, v in scn.immutables.items()}, "config": cfg})
             continue
         _t = time.time()
         inputs = choose_inputs(ctx, scn, sr, n_random_inputs, pool)
